@@ -118,8 +118,9 @@ def _snapshot(guess, cleaned, sol):
             'cf': [pose(v) for v in sol.cf_poses], 'success': bool(sol.success)}
 
 
-def pipeline(room, baton=None, who=0):
-    """The whole pipeline for one room; containers are gated when a baton is given."""
+def pipeline(room, baton=None, who=0, ms=None):
+    """The whole pipeline for one room; containers are gated when a baton is given; `ms` = measurements built by the
+    caller (reuse histories) instead of fresh ones."""
     import warnings
     from fakes import c09_rooms as R
     from cflib.localization.lighthouse_geometry_solver import LighthouseGeometrySolver
@@ -129,7 +130,8 @@ def pipeline(room, baton=None, who=0):
     with warnings.catch_warnings():
         warnings.simplefilter('ignore')
         try:
-            ms = R.measurements(room)
+            if ms is None:
+                ms = R.measurements(room)
             if baton is not None:
                 ms = GateList(ms, baton, who)
             matched = LighthouseSampleMatcher.match(ms, max_time_diff=room.get('max_time_diff', 0.02),
@@ -238,4 +240,130 @@ def check(case):
                     len(rooms), len(rooms), info['hand_overs'], list(pattern)))
     if info['broken']:
         return ('overlap_harness_timeout', 'threads finish', info, 'a thread waited more than 60 s for the baton')
+    return None
+
+
+# ------------------------------------------------------------------ reuse history: the same LighthouseBsVectors refilled
+REFILL_OPS = ('item', 'slice', 'clear_extend')
+
+
+def same_shape_room(room_a, room_b):
+    """room_b's geometry (stations renamed to room_a's ids) measured with room_a's visibility / timing pattern, so that
+    both rooms produce the same number of measurements, station by station."""
+    b = relabel(room_b, sorted(int(x) for x in room_a['bs']))
+    n = min(len(room_a['cf']), len(b['cf']))
+    out = dict(b)
+    out['cf'] = b['cf'][:n]
+    for k in ('vis', 'dt', 't0'):
+        out[k] = [list(x) if isinstance(x, list) else x for x in room_a[k][:n]]
+    return out
+
+
+def refill(container, new_vectors, op):
+    """Replace the contents of a LighthouseBsVectors IN PLACE (same object, same length)."""
+    new_vectors = list(new_vectors)
+    if op == 'item':
+        for i, v in enumerate(new_vectors):
+            container[i] = v
+    elif op == 'slice':
+        container[:] = new_vectors
+    else:
+        container.clear()
+        container.extend(new_vectors)
+
+
+def _truth_errors(snap, room):
+    """Worst (position, rotation) error of the station poses of a snapshot against the truth of `room`
+    (frame of its first pose)."""
+    import numpy as np
+    from fakes import c09_rooms as R
+    from cflib.localization.lighthouse_types import Pose
+    if snap is None or snap.get('outcome') != 'ok':
+        return None
+    bs_t, _cf = R.ground_truth(room, 0)
+    worst = [0.0, 0.0]
+    for k, (rm, t) in snap['bs'].items():
+        if int(k) in bs_t:
+            e = R.pose_error(bs_t[int(k)], Pose(np.array(rm).reshape(3, 3), np.array(t)))
+            worst = [max(worst[0], e[0]), max(worst[1], e[1])]
+    return worst
+
+
+def check_reuse(case):
+    """case: {'rooms': [A, B], 'op': refill operation}.  Pipeline on A; the SAME LighthouseBsVectors objects refilled in
+    place with B's vectors; pipeline on B with those containers must return exactly what it returns with fresh ones."""
+    from fakes import c09_rooms as R
+    from cflib.localization.lighthouse_types import LhMeasurement
+    a = case['rooms'][0]
+    b = same_shape_room(a, case['rooms'][1])
+    ms_a = R.measurements(a)
+    first = pipeline(a, ms=ms_a)
+    fresh_b = R.measurements(b)
+    if len(fresh_b) != len(ms_a) or any(len(x.angles) != len(y.angles) for x, y in zip(ms_a, fresh_b)):
+        return None
+    reused = []
+    for old, new in zip(ms_a, fresh_b):
+        refill(old.angles, new.angles, case['op'])
+        reused.append(LhMeasurement(timestamp=new.timestamp, base_station_id=new.base_station_id, angles=old.angles))
+    second = pipeline(b, ms=reused)
+    alone = pipeline(b)
+    d = differences(alone, second)
+    if d:
+        return ('reused_measurement_containers_give_other_answer',
+                'the answer for the measurements the containers hold NOW (identical to fresh containers)',
+                {'differences_to_fresh_containers': d,
+                 'station_error_vs_truth_of_current_room': _truth_errors(second, b),
+                 'station_error_vs_truth_of_EARLIER_room': _truth_errors(second, dict(a, cf=a['cf'])),
+                 'first_run': _short(first), 'second_run': _short(second) if second else None},
+                'pipeline run on room A, then the same LighthouseBsVectors objects refilled in place (%s) with the '
+                'measurements of room B (same count) and the pipeline run again' % case['op'])
+    return None
+
+
+def check_container(case):
+    """LighthouseBsVectors.projection_pair_list() / angle_list() are functions of the CURRENT contents.
+    case: {'a': [[h, v]...], 'steps': [['read'] | ['item', i, [h, v]] | ['slice', [[h, v]...]] | ['clear_extend', [...]] |
+    ['append', [h, v]] | ['pop'] | ['reverse']]}; after every step both functions are compared with the formulas."""
+    import math
+    import numpy as np
+    from cflib.localization.lighthouse_bs_vector import LighthouseBsVector, LighthouseBsVectors
+
+    def vec(p):
+        return LighthouseBsVector(p[0], p[1])
+    c = LighthouseBsVectors([vec(p) for p in case['a']])
+    cur = [list(p) for p in case['a']]
+    for k, st in enumerate(case['steps']):
+        if st[0] == 'item':
+            c[st[1]] = vec(st[2])
+            cur[st[1]] = list(st[2])
+        elif st[0] == 'slice':
+            c[:] = [vec(p) for p in st[1]]
+            cur = [list(p) for p in st[1]]
+        elif st[0] == 'clear_extend':
+            c.clear()
+            c.extend([vec(p) for p in st[1]])
+            cur = [list(p) for p in st[1]]
+        elif st[0] == 'append':
+            c.append(vec(st[1]))
+            cur.append(list(st[1]))
+        elif st[0] == 'pop':
+            c.pop()
+            cur.pop()
+        elif st[0] == 'reverse':
+            c.reverse()
+            cur.reverse()
+        try:
+            proj = np.asarray(c.projection_pair_list(), dtype=float)
+            ang = np.asarray(c.angle_list(), dtype=float)
+        except Exception as e:  # noqa
+            return ('container_function_raises', 'arrays', '%s: %s' % (type(e).__name__, str(e)[:100]), 'step %d %s' % (k, st[0]))
+        want_p = np.array([[float(np.float32(math.tan(h))), float(np.float32(math.tan(v)))] for h, v in cur]).reshape(-1, 2)
+        want_a = np.array([x for p in cur for x in p], dtype=float)
+        if proj.shape != want_p.shape or ang.shape != want_a.shape or (
+                proj.size and float(np.max(np.abs(proj - want_p))) > 1e-6) or (
+                ang.size and float(np.max(np.abs(ang - want_a))) > 1e-12):
+            return ('container_functions_not_function_of_contents',
+                    {'projection_pair_list': want_p.tolist(), 'angle_list': want_a.tolist()},
+                    {'projection_pair_list': proj.tolist(), 'angle_list': ang.tolist()},
+                    'after step %d (%s) of %s; contents now %s' % (k, st[0], [s[0] for s in case['steps']], cur))
     return None
